@@ -135,3 +135,30 @@ Theorem find_total_length kf r s : (length (concat (re_find kf r s)) <= length s
 Proof.
   unfold re_find. rewrite <- spans_c_spans. destruct (ordered_total s (spans_c kf r s) 0 (spans_c_ordered kf r s)) as [E|E]; [lia|]. rewrite E. cbn. lia.
 Qed.
+
+(* the ends of successive matches strictly increase (an empty match that abuts the previous one is skipped), so a text of n characters has at most n + 1 matches *)
+Fixpoint ends_from (T lo:nat) (sp:list (nat * nat * caps)) : Prop :=
+  match sp with [] => True | (_, b, _) :: rest => (lo <= b /\ b <= T)%nat /\ ends_from T (S b) rest end.
+Lemma ends_from_length T : forall sp lo, ends_from T lo sp -> (length sp <= S T - lo)%nat.
+Proof. induction sp as [|[[a b] c] rest IH]; intros lo H; [cbn; lia|]. destruct H as [H1 H2]. apply IH in H2. cbn [length]. lia. Qed.
+Lemma find_iter_c_ends kf r whole : forall n start last, (start <= length whole)%nat -> match last with None => True | Some l => l = start end ->
+  ends_from (length whole) (match last with None => start | Some _ => S start end) (find_iter_c kf n r whole start last).
+Proof.
+  induction n as [|n IH]; intros start last Hs Hl; [exact I|]. cbn [find_iter_c]. cbv zeta.
+  destruct (search (fuel_for kf whole) r (skipn start whole) start) as [[[st en] c]|] eqn:E; [|exact I].
+  apply (search_bounds (length whole)) in E; [|apply skipn_length_eq; exact Hs].
+  destruct (Nat.eqb st en && match last with Some l => Nat.eqb en l | None => false end) eqn:Ab.
+  - apply andb_prop in Ab as [A1 A2]. apply Nat.eqb_eq in A1. destruct last as [l|]; [|discriminate]. apply Nat.eqb_eq in A2. subst l.
+    destruct (Nat.ltb st (length whole)) eqn:Lt; [|exact I]. apply Nat.ltb_lt in Lt.
+    destruct (search (fuel_for kf whole) r (skipn (S st) whole) (S st)) as [[[st2 en2] c2]|] eqn:E2; [|exact I].
+    apply (search_bounds (length whole)) in E2; [|apply skipn_length_eq; lia].
+    cbn [ends_from]. split; [lia|]. apply (IH en2 (Some en2)); [lia | reflexivity].
+  - cbn [ends_from]. split.
+    + destruct last as [l|]; [|lia]. subst l. apply andb_false_iff in Ab as [A|A]; apply Nat.eqb_neq in A; lia.
+    + apply (IH en (Some en)); [lia | reflexivity].
+Qed.
+Theorem find_count_bound kf r s : (length (re_find kf r s) <= S (length s))%nat.
+Proof.
+  unfold re_find. rewrite map_length, <- spans_c_spans, map_length.
+  pose proof (ends_from_length (length s) _ _ (find_iter_c_ends kf r s (S (S (length s))) 0 None (Nat.le_0_l _) I)) as H. unfold spans_c. lia.
+Qed.
